@@ -519,7 +519,8 @@ def fresh_replay(inp, saved, hist_so_far, call):
     if call["op"] in PROC_QUERIES:
         last = None
         for c in hist_so_far:
-            if c["op"] == "load" and c["proc"] == call["proc"] and c.get("_ok"):
+            # also a load that raised: it may have stored part of the program before raising
+            if c["op"] == "load" and c["proc"] == call["proc"]:
                 last = c
         if last is not None:
             ok, _ = safe_call(W2, {k: v for k, v in last.items() if not k.startswith("_")})
@@ -939,7 +940,29 @@ def gen_listarg_circ(rng, N, n):
     return dict(N=N, ncb=0, gates=gs, kind="listarg")
 
 
-CIRC_U, CIRC_M, CIRC_N, CIRC_2, CIRC_L = 0, 1, 2, 3, 4
+def gen_qasm_circ(rng, N, n):
+    gs = []
+    for _ in range(n):
+        k = rng.choice(["X", "Y", "Z", "SNOT", "S", "T", "RX", "RY", "RZ", "CNOT", "SWAP", "CRZ", "M"] + (["TOFFOLI"] if N >= 3 else []))
+        q = rng.sample(range(N), min(N, 3))
+        if k == "M":
+            gs.append({"M": q[0], "store": rng.randrange(2)})
+        elif k in ("RX", "RY", "RZ"):
+            gs.append(G(k, [q[0]], a=rng.choice(ANG)))
+        elif k == "CNOT":
+            gs.append(G(k, [q[0]], [q[1]]))
+        elif k == "CRZ":
+            gs.append(G(k, [q[0]], [q[1]], a=rng.choice(ANG)))
+        elif k == "SWAP":
+            gs.append(G(k, [q[0], q[1]]))
+        elif k == "TOFFOLI":
+            gs.append(G(k, [q[0]], [q[1], q[2]]))
+        else:
+            gs.append(G(k, [q[0]]))
+    return dict(N=N, ncb=2, gates=gs, kind="qasm")
+
+
+CIRC_U, CIRC_M, CIRC_N, CIRC_2, CIRC_L, CIRC_Q = 0, 1, 2, 3, 4, 5
 
 
 def gen_world(rng, procs_ok=True):
@@ -947,12 +970,12 @@ def gen_world(rng, procs_ok=True):
     ncb = 2
     circs = [gen_unitary_circ(rng, N, rng.randint(1, 5)), gen_meas_circ(rng, N, rng.randint(2, 5), ncb),
              gen_native_circ(rng, N, rng.randint(1, 5)), gen_2q_circ(rng, N, rng.randint(1, 3)),
-             gen_listarg_circ(rng, N, rng.randint(1, 3))]
+             gen_listarg_circ(rng, N, rng.randint(1, 3)), gen_qasm_circ(rng, N, rng.randint(1, 5))]
     cbits = [[rng.randint(0, 1) for _ in range(ncb)], [rng.randint(0, 1) for _ in range(ncb)], [1], []]
     sims = [dict(circ=CIRC_M), dict(circ=CIRC_M, dm=True), dict(circ=CIRC_U)]
     procs = [dict(kind="linear", N=N), dict(kind="circular", N=N, t1=50.0, t2=30.0), dict(kind="cqed", N=N),
              dict(kind="linear", N=N, noise=[dict(kind="relax", t1=40.0, t2=20.0), dict(kind="amp")]),
-             dict(kind="sc", N=2)]
+             dict(kind="sc", N=N)]
     comps = [dict(kind="spinchain", N=N), dict(kind="cqed", N=N)]
     return dict(circs=circs, cbits=cbits, sims=sims, procs=procs, comps=comps, calls=[])
 
@@ -991,9 +1014,9 @@ def gen_call(rng, inp, family):
         if op == "unitary":
             return dict(op=op, circ=rng.choice([CIRC_U, CIRC_2, CIRC_L]))
         if op == "qasm":
-            return dict(op=op, circ=rng.choice([CIRC_U, CIRC_M, CIRC_2]))
+            return dict(op=op, circ=rng.choice([CIRC_Q, CIRC_Q, CIRC_Q, CIRC_U, CIRC_M]))
         if op == "draw":
-            return dict(op=op, circ=rng.choice([CIRC_U, CIRC_M, CIRC_2, CIRC_L]))
+            return dict(op=op, circ=rng.choice([CIRC_U, CIRC_M, CIRC_2, CIRC_L, CIRC_Q]))
         return dict(op="sim_run", sim=2, cbits=None, mr=None, state=rng.choice(["gen", "plus"]))
     if family == "sched":
         op = rng.choice(["schedule", "schedule", "schedule", "instr", "compile", "compile"])
@@ -1014,7 +1037,7 @@ def gen_call(rng, inp, family):
             comp = 0
         if kind == "cqed" and r() < 0.5:
             comp = 1
-        return dict(op=op, proc=p, circ=rng.choice([CIRC_U, CIRC_N, CIRC_2]), comp=comp, sm=rng.choice(["ASAP", "ASAP", "ALAP", None]))
+        return dict(op=op, proc=p, circ=rng.choice([CIRC_U, CIRC_N, CIRC_U, CIRC_N, CIRC_2]), comp=comp, sm=rng.choice(["ASAP", "ASAP", "ALAP", None]))
     if op == "qobjevo":
         return dict(op=op, proc=p, noisy=r() < 0.6)
     if op == "noisy_pulses":
@@ -1129,12 +1152,13 @@ def compare(inp, obs, model, corr):
             return
         if not o["ok"]:
             continue
-        cb_roots = set(k for k in m["mutated"] if k.startswith("cbits"))
+        # whether a classical-bit list passed to a run changes is value dependent (outcomes, zero-probability
+        # branches stop a run early): not compared; the oracle reports every such change
+        c = inp["calls"][ci]
+        skip = {"cbits%d" % c["cbits"]} if (c["op"] in RUN_OPS and c.get("cbits") is not None) else set()
         bad = []
-        if not set(o["mutated"]) <= set(m["mutated"]):
+        if set(o["mutated"]) - skip != set(m["mutated"]) - skip:
             bad.append("mutated")
-        if not (set(m["mutated"]) - set(o["mutated"])) <= cb_roots:
-            bad.append("mutated(model-only)")
         if sorted(o["alias"]) != sorted(m["alias"]):
             bad.append("alias")
         if bool(o["alias_prev"]) != m["alias_prev"]:
